@@ -96,6 +96,7 @@ type hist = {
   mutable emitted : (int * int * string) list;          (* every kernel record seen so far: wd, mask, name *)
   mutable stores : (int * string * int) list;           (* move-outs delivered so far: cookie, name, serial *)
   mutable nstores : int;
+  mutable overflowed : bool;
 }
 
 let split_kinds impl model =
@@ -145,7 +146,7 @@ let () =
       let recurse = field "recurse=" rest = "1" and cwd = unhex (field "cwd=" rest) in
       cur := Some { id = int_of_string id; cfg = { c_recurse = recurse; c_cwd = chars_of_string cwd }; s = x_init; stepno = 0;
                     confirmed = 0; benign = true; sentinel = ""; prev_tpath = []; prev_twd = []; last_was_process = false; dead = false;
-                    ended_watches = []; emitted = []; stores = []; nstores = 0 };
+                    ended_watches = []; emitted = []; stores = []; nstores = 0; overflowed = false };
       bump (if recurse then "histories_recursive" else "histories_plain")
     | ["end"], Some _ -> finish ()
     | _, Some h when h.dead -> ()
@@ -202,7 +203,7 @@ let () =
       if not (x_env_ok h.s st) then emit "KERNEL" "release-of-dead-mark" h.id h.stepno wd;
       h.s <- fst (x_step h.cfg h.s st); h.confirmed <- h.confirmed + (if ds = "1" then 2 else 1)
     | ["koverflow"], Some h ->
-      bump "kernel_overflows"; h.benign <- false;
+      bump "kernel_overflows"; h.benign <- false; h.overflowed <- true;
       h.s <- fst (x_step h.cfg h.s KOverflow); h.confirmed <- h.confirmed + 1
     | ["kauto"; wd; mask; cookie; len; name], Some h ->
       let r = raw_of_fields wd mask cookie len name in
@@ -221,7 +222,17 @@ let () =
            h.confirmed <- h.confirmed + 1
          end else begin
            emit "KERNEL" "auto-record-differs" h.id h.stepno (Printf.sprintf "real=%s model=%s" (raw_str r) (raw_str m)); h.dead <- true end
-       | None -> emit "KERNEL" "auto-record-unpredicted" h.id h.stepno (Printf.sprintf "real=%s" (raw_str r)); h.dead <- true)
+       | None ->
+         emit "KERNEL" "auto-record-unpredicted" h.id h.stepno (Printf.sprintf "real=%s" (raw_str r));
+         (* the library made a kernel call the model does not make.  Adopt what really happened (the mark is gone, the
+            record is queued) and go on, so that the property-level consequences further down the history are seen too *)
+         if int_of_n r.r_mask land 0x8000 <> 0 then begin
+           let k = h.s.k in
+           let marks' = List.fold_left (fun m (wd, ino) -> if wd = r.r_wd then m else m) k.marks [] in
+           ignore marks';
+           h.s <- fst (x_step h.cfg h.s (KRelease (r.r_wd, false)));
+           h.confirmed <- h.confirmed + 1
+         end else h.dead <- true)
     | "state" :: rest, Some h ->
       let marks = List.sort compare (List.map (fun it -> match String.split_on_char ':' it with [a; b] -> (int_of_string a, int_of_string b) | _ -> (0, 0)) (split ',' (field "marks=" rest))) in
       let twd = List.sort compare (List.map (fun it -> match String.split_on_char ':' it with [a; p; f; r] -> (int_of_string a, unhex p, int_of_string f, r = "1") | _ -> (0, "", 0, false)) (split ',' (field "twd=" rest))) in
@@ -277,7 +288,9 @@ let () =
              | [] -> emit "KERNEL" "queue-empty" h.id h.stepno (raw_str r));
             h.s <- fst (x_step h.cfg h.s (SHandle dirs)); h.confirmed <- max 0 (h.confirmed - 1)
           | 'S' -> h.s <- fst (x_step h.cfg h.s (SInject (r, dirs)))
-          | _ -> h.benign <- false; bump "injected_records"; h.s <- fst (x_step h.cfg h.s (SInject (r, dirs))));
+          | _ -> h.benign <- false; bump "injected_records";
+            if int_of_n r.r_mask land 0x4000 <> 0 then h.overflowed <- true;
+            h.s <- fst (x_step h.cfg h.s (SInject (r, dirs))));
           let produced = List.filteri (fun j _ -> j >= n_before) (x_outs h.s) in
           per_record := (parts.[i], r, produced, twd_before, tpath_before) :: !per_record) recs;
         let all = x_outs h.s in
@@ -289,7 +302,11 @@ let () =
         bump ~by:(List.length (List.filter (fun s -> s.[0] = 'X') impl)) "errors_delivered";
         if status <> "ok" then emit "MISMATCH" ("reader-" ^ status) h.id h.stepno "";
         if impl <> model then
-          List.iter (fun k -> emit "MISMATCH" ("out-" ^ k) h.id h.stepno (Printf.sprintf "impl=%s model=%s" (pretty impl) (pretty model))) (split_kinds impl model);
+          List.iter (fun k ->
+            emit "MISMATCH" ("out-" ^ k) h.id h.stepno (Printf.sprintf "impl=%s model=%s" (pretty impl) (pretty model));
+            if k = "missing" && h.overflowed then
+              emit "MISMATCH" "out-missing-after-overflow" h.id h.stepno (Printf.sprintf "impl=%s model=%s" (pretty impl) (pretty model)))
+            (split_kinds impl model);
         if impl = model && not h.cfg.c_recurse then
           List.iter (fun (part, r, produced, twd_before, tpath_before) ->
             let mask = int_of_n r.r_mask and cookie = int_of_n r.r_cookie in
